@@ -725,7 +725,14 @@ fn emit_fragment(em: &mut Emit, spec: &ItemSpec, src: &str, parsed: &syn::File, 
         let mut holes: Vec<(usize, usize)> = Vec::new();
         for h in &spec.sig {
             let (kind, anchor) = h.split_once(char::is_whitespace).unwrap_or_else(|| die("skeleton hole: kind anchor"));
-            holes.push(locate_fragment(&c, src, kind, anchor.trim(), &spec.selector));
+            let (a, b) = locate_fragment(&c, src, kind, anchor.trim(), &spec.selector);
+            // a `let` hole also covers `: TYPE =` (the annotation, if there is one, is compared with the
+            // fragment's return type when the fragment is emitted), so `let x: T = e` and `let x = e as T`
+            // have the same skeleton
+            let a = if kind == "let" {
+                c.lets.iter().position(|(_, sp)| *sp == (a, b)).map(|i| c.let_heads[i].0).unwrap_or(a)
+            } else { a };
+            holes.push((a, b));
         }
         holes.sort();
         let (_, fe) = br(f_span);
@@ -757,6 +764,20 @@ fn emit_fragment(em: &mut Emit, spec: &ItemSpec, src: &str, parsed: &syn::File, 
     }
     let fr = spec.fragment.as_ref().unwrap();
     let (s, e) = locate_fragment(&c, src, &fr.kind, &fr.anchor, &spec.selector);
+    if fr.kind == "let" {
+        // the type annotation of the real `let` (outside the lifted span) must be the fragment's return type
+        if let Some(i) = c.lets.iter().position(|(_, sp)| *sp == (s, e)) {
+            if let Some((ts, te)) = c.let_heads[i].1 {
+                let ann = norm(&src[ts..te]).replace(' ', "");
+                let ret = fr.ret.trim().trim_start_matches('(').trim_end_matches(')');
+                let ret = ret.split_once(':').map(|(_, t)| t).unwrap_or(ret);
+                let ret = norm(ret).replace(' ', "");
+                if ann != ret {
+                    die(&format!("lost anchor: `let {}` of {} is annotated `{}`, the fragment returns `{}`", fr.anchor, spec.selector, ann, ret));
+                }
+            }
+        }
+    }
     let out_start = em.line;
     em.push(&format!("//@begin-fragment {} {} [{} {}] as {} src_lines={}-{}\n", spec.file, spec.selector, fr.kind, fr.anchor, fr.name, line_of(src, s), line_of(src, e)), json!({"kind": "marker"}));
     let mut head = match &impl_ty {
